@@ -87,10 +87,11 @@ theorem C17_verdict_at (p : Program) (hnd : p.cfg.dry = false) (hok : AllOk p.ct
     ((runProgram { p with cfg := { p.cfg with dry := true } }).2[i]?).map OpRes.v = ((runProgram p).2[i]?).map OpRes.v :=
   ((sameVerdicts_at _ _ (C17_verdicts p hnd hok)).2 i).1
 
-/-- non-vacuity: a program with an empty script satisfies the hypothesis (every execution succeeds) -/
-example (p : Program) (h : p.script = []) : AllOk p.ctx := by
+/-- non-vacuity: a program with an empty script, none of whose functions has a value-typed error result, satisfies
+    the hypothesis (every execution succeeds) -/
+example (p : Program) (h : p.script = []) (hf : p.fns.filterMap (forcedOf p.types) = []) : AllOk p.ctx := by
   intro f x
-  simp [Program.ctx, Ctx.beh, h]
+  simp [Program.ctx, Ctx.beh, Ctx.scripted, h, hf]
 
 #print axioms C17_silent
 #print axioms C17_verdicts
